@@ -111,6 +111,17 @@ func Project(a *App, kr *Keyring, opts ProjOpts) J {
 
 	if opts.EVM {
 		out["evm"] = projEVM(a, kr, addrOf)
+		// hidden state of the EVM bridge that later transactions of the block depend on: which accounts are currently
+		// marked as copied into the EVM's state (they are not copied again, and they are written back)
+		var synced []string
+		for ad := range vv.EVM.VerifSynced() {
+			synced = append(synced, kr.Name(ad[:]))
+		}
+		sort.Strings(synced)
+		if synced == nil {
+			synced = []string{}
+		}
+		out["vol"].(J)["evmSynced"] = synced
 	}
 	return out
 }
